@@ -965,15 +965,76 @@ def corpus_descs():
     return out
 
 
+# -- a second configuration: the interpreter's default text encoding is ASCII (C locale, no UTF-8 mode) -------------
+LOCALE_ENV = {'LC_ALL': 'C', 'LANG': 'C', 'PYTHONUTF8': '0', 'PYTHONCOERCECLOCALE': '0', 'PYTHONIOENCODING': 'utf-8'}
+
+
+def locale_descs():
+    nm = [['s', [ord(c) for c in 'caf\u00e9']], ['s', [0x4e2d, 0x1f600]], ['s', [120, 1]]]
+    sig = {'locale': 'C (ascii default encoding)'}
+    return [
+        {'f': 'visualize_graph', 'n': 3, 'indptr': [0, 1, 2, 2], 'indices': [1, 2], 'data': [1, 1],
+         'position': [[0, 0], [1, 1], [2, 0]], 'names': nm, 'opts': {}, 'file': True, 'sig': sig},
+        {'f': 'visualize_bigraph', 'shape': [1, 3], 'indptr': [0, 2], 'indices': [0, 2], 'data': [1, 1],
+         'names_row': nm[:1], 'names_col': nm, 'opts': {'reorder': False}, 'file': True, 'sig': sig},
+        {'f': 'visualize_dendrogram', 'dendrogram': [[0, 1, 1, 2], [3, 2, 2, 3]], 'names': nm, 'opts': {}, 'file': True,
+         'sig': sig},
+    ]
+
+
+def worker_main():
+    """Runs in the subprocess: build the cases (calls the implementation), print them as JSON."""
+    import json
+    import sys
+    descs = json.load(sys.stdin)
+    out = []
+    try:
+        for c in cases_of(descs):
+            out.append({'key': list(map(str, c.key)), 'sig': c.sig, 'run': c.run, 'impl': c.impl, 'spec': c.spec,
+                        'nontrivial': c.nontrivial, 'desc': c.desc, 'canon': c.canon})
+    finally:
+        cleanup()
+    json.dump(out, sys.stdout)
+
+
+def locale_cases(ctx, descs=None):
+    import json
+    import subprocess
+    import sys
+    root = getattr(ctx, 'overlay_root', None) or getattr(getattr(ctx, 'ctx', None), 'overlay_root', None)
+    if root is None:
+        return []
+    tools = os.path.join(core.VERIF, 'tools')
+    code = 'import sys; sys.path[:0] = [%r, %r]; from harness import c20; c20.worker_main()' % (root, tools)
+    env = dict(os.environ)
+    env.update(LOCALE_ENV)
+    r = subprocess.run([sys.executable, '-c', code], input=json.dumps(descs if descs is not None else locale_descs()), env=env, stdout=subprocess.PIPE,
+                       stderr=subprocess.PIPE, text=True, timeout=300, encoding='utf-8')
+    if r.returncode != 0:
+        raise core.ToolFailure('locale worker failed: ' + r.stderr[-2000:])
+    cases = []
+    for d in json.loads(r.stdout):
+        if str(d['impl']).startswith('err Unicode'):
+            # the drawing could not be written in this configuration: a failing input of the property
+            ctx.spec_fail(d['sig'], d['desc'], {'impl': d['impl'], 'configuration': LOCALE_ENV})
+            continue
+        cases.append(Case(tuple(d['key']) + ('locale',), d['sig'], d['run'], d['impl'], d['spec'], d['nontrivial'],
+                          d['desc'], canon=d['canon']))
+    ctx.count('configuration:ascii-locale', len(cases))
+    return cases
+
+
 def run(ctx):
     try:
         descs = corpus_descs()
         ctx.count('corpus', len(descs))
+        in_locale = [d for d in descs if (d.get('sig') or {}).get('locale')]
+        descs = [d for d in descs if not (d.get('sig') or {}).get('locale')]
         descs += hostile_sweep(ctx)
         descs += gen_graph_cases(ctx)
         descs += gen_bigraph_cases(ctx)
         descs += gen_dendro_cases(ctx)
-        evaluate(ctx, cases_of(descs))
+        evaluate(ctx, cases_of(descs) + locale_cases(ctx, in_locale + locale_descs()))
     finally:
         cleanup()
 
@@ -1006,7 +1067,9 @@ def replay(ctx, payload):
     """Re-run one recorded failing input against the current tree."""
     try:
         case = payload.get('case') or (payload.get('what_no_longer_checks') or {}).get('case') or {}
-        if case.get('f') in BUILDERS:
+        if case.get('f') in BUILDERS and (case.get('sig') or {}).get('locale'):
+            evaluate(ctx, locale_cases(ctx, [case]))
+        elif case.get('f') in BUILDERS:
             evaluate(ctx, cases_of([case]))
         else:
             run(ctx)
